@@ -50,6 +50,7 @@ type c13Script struct {
 	schedule int
 	defaults bool // the Client's interval fields are left at zero: the documented defaults (5 s / 1 s) apply
 	dress    int  // shape of the peer's answers (c13DWA)
+	noise    int  // unhandled requests the peer sends right after the handshake (nobody reads ErrorReports)
 }
 
 func (s c13Script) String() string {
@@ -186,6 +187,13 @@ func runC13Client(c *ev.Case, ctx *lib.Ctx, sc c13Script) {
 		return
 	}
 	hsDone := time.Now()
+	if sc.noise > 0 {
+		// the peer also sends requests the application has no handler for; the application does
+		// not read ErrorReports.  None of this is the watchdog's business.
+		for i := 0; i < sc.noise; i++ {
+			mc.Feed(peer.Msg(0xC0, 275, 0, uint32(0x0E000000+i), 1, peer.Str(peer.SessionID, refcodec.UTF8String, "s;1")))
+		}
+	}
 	// the peer runs a watchdog of its own: its DWR must be answered by the client's state machine
 	mc.Feed(peer.DWR(0x7e570001, 0x7e570002))
 	// horizon
@@ -466,6 +474,17 @@ func runC13Server(c *ev.Case, ctx *lib.Ctx, variant int) {
 	}()
 	mc.Feed(peer.StdCER(1, 1, 4))
 	synctest.Wait()
+	if variant&32 != 0 {
+		// before the well-formed ones: 200 DWRs that lack the Origin-Host (each one an error report
+		// that nobody reads) and 100 requests nobody handles
+		for i := 0; i < 200; i++ {
+			mc.Feed(cutAVP(peer.DWR(uint32(0x0D000000+i), 1), peer.OriginHost))
+			if i%2 == 0 {
+				mc.Feed(peer.Msg(0xC0, 275, 0, uint32(0x0E000000+i), 1, peer.Str(peer.SessionID, refcodec.UTF8String, "s;1")))
+			}
+		}
+		synctest.Wait()
+	}
 	n0 := len(mc.Writes())
 	ids := [][2]uint32{{0, 0}, {1, 0xffffffff}, {0x80000000, 7}, {c.R.Uint32(), c.R.Uint32()}}
 	sent := 0
@@ -641,6 +660,10 @@ func TestC13(t *testing.T) {
 	rec.Suite("client-scripts", len(scripts)*reps, func(c *ev.Case) {
 		sc := scripts[c.I%len(scripts)]
 		sc.dress = (c.I/len(scripts) + c.I) % nC13Dress
+		if (c.I/5)%4 == 3 {
+			sc.noise = []int{3, 70, 200}[(c.I/20)%3]
+			c.Class("unhandled-requests-unread-reports=%d", sc.noise)
+		}
 		c.Class("N=%d/%s/%s/W>R=%v/defaults=%v", sc.N, aNames[sc.pattern], sNames[sc.schedule], sc.W > sc.R, sc.defaults)
 		c.Class("dwa-shape=%d/%s", sc.dress, aNames[sc.pattern])
 		leak := runBubbleWD(t, rec, c, 30*time.Second, func() { runC13Client(c, ctx, sc) })
@@ -666,8 +689,8 @@ func TestC13(t *testing.T) {
 		}
 	})
 	rec.Suite("server-dwr", rec.N(64, 200000), func(c *ev.Case) {
-		c.Class("server-dwr/variant=%d", c.I%32)
-		leak := runBubbleWD(t, rec, c, 60*time.Second, func() { runC13Server(c, ctx, c.I%32) })
+		c.Class("server-dwr/variant=%d", c.I%64)
+		leak := runBubbleWD(t, rec, c, 60*time.Second, func() { runC13Server(c, ctx, c.I%64) })
 		if leak != "" && !c.Failed() {
 			c.Fail(ev.Sig{"op": "bubble-leak", "role": "server"}, nil, nil, "goroutines left blocked after the scenario: %s", leak)
 		}
